@@ -213,7 +213,10 @@ def check_protocol(module: str, qualname: str, target_expr: str, content_name: s
                 and len(inner[2].body) == 2
                 and not inner[2].orelse
             )
-            if ok:
+            if ok and ast.unparse(st.test) not in ("base_hash and file_exists", "base_hash and path_obj.exists()"):
+                probs.append(f"the pre-replace verification runs only under `{ast.unparse(st.test)}` (expected: whenever base_hash is given and the target existed)")
+                order.append("verify")
+            elif ok:
                 order.append("verify")
                 facts.append(f"re-read + compare before replace under `{ast.unparse(st.test)}`; a mismatch unlinks the temp file and returns an error")
             else:
@@ -276,6 +279,19 @@ def probe_faults(scenario: str = "wt_overwrite_nohash"):
             new_entries = [e for e in rr["after"] if e not in rr["before"]]
             if env.get("status") == "error" and new_entries:
                 return True, f"external change before call #{k}:{tr['calls'][k][1]}: status=error but {new_entries} left beside the target"
+    if scn["pre"] and scn["call"].get("base_hash"):
+        # a rewrite that keeps length and timestamps, at every point up to the completion of the temp file: the
+        # writer's final comparison comes later, so it must notice (E_HASH)
+        names = [c[1] for c in tr["calls"]]
+        rep = len(names) - 1 - names[::-1].index("os.replace") if "os.replace" in names else len(names)
+        closes = [i for i, c in enumerate(tr["calls"][:rep]) if c[1] == "file.close" and str(c[2]).endswith(".tmp")]
+        done = closes[-1] if closes else rep - 1
+        first_read = next((i for i, n in enumerate(names) if n in ("file.read", "Path.read_text")), 0)
+        for k in range(first_read + 2, done + 1):
+            rr = F.run_act(scn, k, {"kind": "external_keepstat", "text": "===DOC===\nA::new\nC::4\n===END===\n"})
+            env = rr.get("envelope") or {}
+            if env.get("status") == "success":
+                return True, f"the target was rewritten (same length, same timestamps) before call #{k}:{names[k]}, i.e. before the writer's temp file was complete, yet the writer holding the old base_hash succeeded"
     return False, f"{r['evaluations']} fault/kill points and {len(tr['calls'])} external-change points of {scenario}: target always old-or-new, no temp file left after an error"
 
 
